@@ -3,7 +3,7 @@ from lv import core, model, gen, drive, xform
 from lv.props import common
 
 ID = 'C07'
-BUDGET = {'quick': 200, 'thorough': 8000}
+BUDGET = {'quick': 320, 'thorough': 8000}
 RULE = ('programs from the typed generator (core + aggregation + negation + injection '
         'profile); per program up to 3 variants drawn from: permutation of statements, '
         'facts, conjuncts (also inside combines / negations) and disjuncts; consistent '
